@@ -2210,6 +2210,77 @@ def run(chk):
         and same(plain.get("document_file"), "docs-marker.json") and plain.get("document_archive", d_defaults.get("document_archive")) is None
     chk.ob("O10.2", "source-file -> document file / archive", ok, dctor[0],
            "" if ok else f"archive: file={arch.get('document_file')!r} archive={arch.get('document_archive')!r}; plain file: file={plain.get('document_file')!r} archive={plain.get('document_archive')!r}"[:300])
+    # every document set is loaded from ITS OWN specification and the defaults of ITS corpus: what Documents(...) gets for a document set does not depend on the document sets
+    # written before it in the same corpus, nor on the corpora written before its corpus (no value carried from one iteration of the loops to the next). Decided on VALUES:
+    # _create_corpora is interpreted as a whole on two corpora with several document sets (the first ones overriding every key that has a corpus-level default, the later ones
+    # writing only what is mandatory) and every Documents(...) call is compared, parameter by parameter, with the call of the run in which that document set is the only one
+    # of the only corpus (same corpus-level keys).
+    def all_documents(corpora):
+        env = call_env(cr, {params_of(cr)[1]: corpora, params_of(cr)[2]: [], params_of(cr)[3]: []})
+        # (the corpus and its document sets are objects built by their own constructors, so that code which looks at the corpora built so far is interpreted as well)
+        dco_ = trk.cls("DocumentCorpus")
+        base = modelled(loader_hook(observe=observe_all - {cr.name}, oracle={"is_archive": True}), [(dco_, method(trk, dco_, "__init__")), (DC, DI)])
+        seen = []
+
+        def hook(e, env_, sim):
+            if is_doc_ctor(e):
+                args_, kwargs_ = sim.arguments(e, env_)
+                vals = dict(zip(d_params, args_))
+                vals.update(kwargs_)
+                seen.append(vals)
+            return base(e, env_, sim)
+
+        kind, _, node = simulate(cr.body, env, None, hook, consts=track_consts)
+        return kind, node, seen
+
+    def doc_set(i, **extra):
+        return {"source-file": f"docs-{i}.json.bz2", "document-count": 1000 + i, "target-index": f"own-index-{i}", **extra}
+
+    sib_corpora = [
+        {"name": "corpus-1", "base-url": "http://corpus-1-base-url", "target-index": "corpus-1-index", "target-type": "corpus-1-type", "documents": [
+            doc_set(1, **{"base-url": "http://doc-1-base-url", "target-type": "doc-1-type", "compressed-bytes": 11, "uncompressed-bytes": 12, "meta": {"k": "doc-1-meta"}}),
+            {k_: v_ for k_, v_ in doc_set(2).items() if k_ != "target-index"},
+            doc_set(3, **{"includes-action-and-meta-data": True}),
+            {k_: v_ for k_, v_ in doc_set(4).items() if k_ != "target-index"}]},
+        {"name": "corpus-2", "documents": [doc_set(5), doc_set(6, **{"base-url": "http://doc-6-base-url", "source-format": bulk}), doc_set(7)]},
+        {"name": "corpus-3", "includes-action-and-meta-data": True, "documents": [doc_set(8, **{"includes-action-and-meta-data": False}), {"source-file": "docs-9.json.bz2", "document-count": 1009}]},
+        {"name": "corpus-4", "documents": [doc_set(10)]},
+    ]
+    try:
+        kind_all, node_all, seen_all = all_documents(sib_corpora)
+        solo = {}
+        for c_ in sib_corpora:
+            for d_ in c_["documents"]:
+                k1, n1, s1 = all_documents([{**c_, "documents": [d_]}])
+                if k1 != "return" or len(s1) != 1:
+                    raise CannotEval(f"a corpus with the single document set {d_['source-file']} ends in `{k1}` at line {getattr(n1, 'lineno', '?')} with {len(s1)} Documents(...) call(s)")
+                solo[d_["source-file"]] = s1[0]
+        if kind_all not in ("return", "raise", "error"):
+            raise CannotEval(f"ends in `{kind_all}` at line {getattr(node_all, 'lineno', '?')}")
+        by_file = {}
+        for vals in seen_all:
+            owner = [f_ for f_ in solo if same(vals.get("document_archive"), f_) or same(vals.get("document_file"), f_)]
+            if len(owner) != 1 or owner[0] in by_file:
+                raise CannotEval("the Documents(...) calls cannot be related to the document sets by their source file")
+            by_file[owner[0]] = vals
+        for key, param in DOC_KEYS.items():
+            wrong = []
+            if kind_all != "return":
+                wrong.append(f"four valid corpora (each document set is accepted on its own) are rejected together: `{kind_all}` at line {getattr(node_all, 'lineno', '?')}")
+            for f_, alone in solo.items():
+                if wrong:
+                    break
+                if f_ not in by_file:
+                    wrong.append(f"no Documents(...) for {f_}")
+                    continue
+                a_, b_ = alone.get(param, d_defaults.get(param)), by_file[f_].get(param, d_defaults.get(param))
+                if not (same(a_, b_) or (a_ is None and b_ is None)):
+                    wrong.append(f"{f_}: {param}={b_!r} after its siblings, {a_!r} when it is the only document set of its corpus")
+            chk.ob("O10.2", f"document key '{key}': what a document set is loaded with does not depend on the document sets / corpora written before it", not wrong, dctor[0],
+                   "; ".join(wrong)[:300] + (" — a value is carried from one document set (or corpus) to the next" if wrong else ""), key=f"{_L}:_create_corpora:sibling-independence:{key}")
+    except CannotEval as e:
+        chk.unknown("O10.2", f"_create_corpora cannot be interpreted on corpora with several document sets: {e}", dctor[0])
+
     # Documents.__init__ interpreted on marker arguments: the attribute of that name (or its private twin behind a property) holds the argument
     try:
         obj = Record()
@@ -2456,6 +2527,82 @@ def run(chk):
             chk.ob("O10.4", f"schema: '{k_}' is constrained identically in every place it may be written ({group})", ok, sch,
                    "" if ok else "; ".join(f"{nm}: {v_[:70]}" for nm, v_ in have) + " — a value rejected in one place is accepted in another", key=f"esrally/resources/track-schema.json:sibling:{group}:{k_}")
     chk.ob("O10.4", "schema sibling definitions located", n_sib >= 14, sch, f"{n_sib} shared key(s)")
+    # WHICH JSON-schema dialect decides "violates the schema": two sites cooperate - the `$schema` member of track-schema.json and the call the loader applies the schema with
+    # (jsonschema.validate(spec, schema) selects the validator class from `$schema`; jsonschema.validate(..., cls=X) and X(schema).validate(spec) apply X whatever the file
+    # declares). The dialects differ on values a track can hold: from draft-06 on "type": "integer" admits 8.0, in draft-03/04 it does not. Decided on VALUES: the validator the
+    # loader ends up with (role resolution below; the class is looked up in the jsonschema package, which is used as an evaluator of the extracted constant schema as for the
+    # operations block) validates tiny tracks that write an integer-typed key once as 7 and once as 7.0: the first must pass, the second must be rejected.
+    _draft_cls = re.compile(r"^Draft(\d+)Validator$")
+
+    def validator_role(f_, c):
+        """("declared", None) / ("class", name) / None for the validate call c in f_: which validator class decides."""
+        d = dotted(c.func) or ""
+        if d in ("jsonschema.validate", "validate", "jsonschema.validators.validate"):
+            cls_e = arg_of(c, 2, "cls")
+            if cls_e is None:
+                return ("declared", None)
+            return ("class", last_attr(cls_e)) if _draft_cls.match(last_attr(cls_e) or "") else None
+        if not isinstance(c.func, ast.Attribute):
+            return None
+        recv = c.func.value
+        if is_self_attr(recv):
+            vals = [n.value for m_ in fr_methods.values() for n in walk_body(m_) if isinstance(n, ast.Assign) and any(is_self_attr(t_) and t_.attr == recv.attr for t_ in n.targets)]
+            recv = vals[0] if len(vals) == 1 else None
+        elif isinstance(recv, ast.Name):
+            recv = local_defs(f_).get(recv.id)
+        if not isinstance(recv, ast.Call):
+            return None
+        if _draft_cls.match(last_attr(recv.func) or ""):
+            return ("class", last_attr(recv.func))
+        if isinstance(recv.func, ast.Call) and last_attr(recv.func.func) == "validator_for":
+            return ("declared", None)
+        return None
+
+    val_sites = [(f_, c) for f_ in fr_methods.values() for c in source.calls_in(f_) if last_attr(c.func) == "validate"]
+    int_places = (("task", items, lambda k_, v_: {"description": "d", "schedule": [{"operation": "op-1", k_: v_}]}),
+                  ("parallel element", par, lambda k_, v_: {"description": "d", "schedule": [{"parallel": {k_: v_, "tasks": [{"operation": "op-1"}]}}]}),
+                  ("document set", docs_, lambda k_, v_: {"description": "d", "corpora": [{"name": "c", "documents": [{"source-file": "f.json", k_: v_}]}]}))
+    if len(val_sites) != 1:
+        chk.unknown("O10.4", f"the dialect the schema is applied with: {len(val_sites)} validate(...) calls in {FR.name} (expected one)", rd)
+    else:
+        v_func, v_call = val_sites[0]
+        role = validator_role(v_func, v_call)
+        declared = sj.get("$schema")
+        v_cls = why_not = None
+        try:
+            import jsonschema as _js
+        except ImportError:
+            _js = None
+        if role is None:
+            why_not = f"which validator class `{short(v_call, 60)}` applies is not recognised"
+        elif _js is None:
+            why_not = "the jsonschema package (used as the evaluator of the extracted schema) is not importable"
+        elif role[0] == "class":
+            v_cls, applied = getattr(_js, role[1], None), f"{role[1]} hard-wired in the loader; the file declares $schema {declared!r}"
+            if v_cls is None:
+                why_not = f"jsonschema has no class {role[1]}"
+        else:
+            v_cls, applied = _js.validators.validator_for(sj), f"selected from the $schema {declared!r} of the file"
+        if why_not:
+            chk.unknown("O10.4", f"the dialect the schema is applied with: {why_not}", v_call)
+        else:
+            validator = None
+            for place, props, build in int_places:
+                for k_ in sorted(props):
+                    if not (isinstance(props[k_], dict) and props[k_].get("type") == "integer"):
+                        continue
+                    try:
+                        validator = validator or v_cls(sj)
+                        as_int, as_float = [next(iter(validator.iter_errors(build(k_, x_))), None) for x_ in (7, 7.0)]
+                    except Exception as e:  # malformed schema: surfaces from inside the library
+                        chk.unknown("O10.4", f"the schema cannot be applied to a tiny track ({type(e).__name__}: {e})"[:200], v_call)
+                        continue
+                    if as_int is not None:
+                        chk.unknown("O10.4", f"a tiny track writing `\"{k_}\": 7` on a {place} is not accepted by the schema ({as_int.message[:80]}): no valid baseline for the dialect probe", v_call)
+                        continue
+                    chk.ob("O10.4", f"schema dialect: `\"{k_}\": 7.0` on a {place} (an integer-valued float where the schema demands an integer) is rejected by the validator the loader applies",
+                           as_float is not None, v_call, f"validator: {applied}" + ("" if as_float is not None else f" — 7.0 passes as an integer: the track is loaded with a float {k_}"),
+                           key=f"{_S}:dialect:{place}:{k_}")
     # the schema may only reject what the documentation rules out: an operation defined in the top-level `operations` block with a value docs/track.rst documents for that
     # operation type (and that the same operation written inline in the schedule — untyped there — loads with) must pass the block's item schema. The item schema is an extracted
     # constant; tiny instances {"name", "operation-type", KEY: VALUE} are validated against it (jsonschema if importable — the library the loader itself applies — else the local
@@ -2936,6 +3083,28 @@ def run(chk):
         ("a task sets another ramp-up than the parallel element", {**wp, "ramp-up-time-period": 60, "tasks": [dict(ta), {**tb_, "ramp-up-time-period": 30}]}, True),
         ("a task repeats the ramp-up of the parallel element", {**wp, "ramp-up-time-period": 60, "tasks": [dict(ta), {**tb_, "ramp-up-time-period": 60}]}, False),
     ], ru_err[0] if ru_err else pp)
+    # the rules about iterations / time periods / ramp-up are rules about what a task ENDS UP with: a value inherited from the enclosing parallel element counts like one written on
+    # the task (inside a parallel element the ramp-up is ALWAYS inherited: a task may not write its own). Same value-table technique: the element either rejects or is returned
+    t_own = {"operation": "op-1", "name": "t-b", "warmup-time-period": 30}
+    ru_sites = reject_sites(closure(pt, roles), ("ramp-up",))
+    table("ramp-up without sufficient warm-up is rejected when the ramp-up (or the warm-up) is inherited from the parallel element", [
+        ("element: ramp-up 60, warm-up 120 (inherited by both tasks)", {"warmup-time-period": 120, "time-period": 600, "ramp-up-time-period": 60, "tasks": [dict(ta), dict(tb_)]}, False),
+        ("element: ramp-up 60, warm-up 60 (equal)", {"warmup-time-period": 60, "time-period": 600, "ramp-up-time-period": 60, "tasks": [dict(ta), dict(tb_)]}, False),
+        ("element: ramp-up 120, no warm-up period anywhere", {"time-period": 600, "ramp-up-time-period": 120, "tasks": [dict(ta), dict(tb_)]}, True),
+        ("element: ramp-up 120, warm-up 60", {"warmup-time-period": 60, "time-period": 600, "ramp-up-time-period": 120, "tasks": [dict(ta), dict(tb_)]}, True),
+        ("element: ramp-up 60, warm-up 120; the second task overrides the warm-up with 30", {"warmup-time-period": 120, "time-period": 600, "ramp-up-time-period": 60, "tasks": [dict(ta), dict(t_own)]}, True),
+        ("element: ramp-up 60, no warm-up; the tasks write their own warm-up of 120 / 30", {"time-period": 600, "ramp-up-time-period": 60, "tasks": [{**ta, "warmup-time-period": 120}, dict(t_own)]}, True),
+        ("element: ramp-up 20, no warm-up; the tasks write their own warm-up of 120 / 30", {"time-period": 600, "ramp-up-time-period": 20, "tasks": [{**ta, "warmup-time-period": 120}, dict(t_own)]}, False),
+        ("element: ramp-up 60 and iterations (inherited by both tasks)", {"iterations": 100, "ramp-up-time-period": 60, "tasks": [dict(ta), dict(tb_)]}, True),
+    ], ru_sites[0] if ru_sites else pt, key=f"{_L}:parse_parallel+parse_task:inherited-ramp-up-needs-warm-up")
+    table("iterations mixed with time periods are rejected when one of the two is inherited from the parallel element", [
+        ("element: warm-up iterations and iterations (inherited)", {"warmup-iterations": 10, "iterations": 100, "tasks": [dict(ta), dict(tb_)]}, False),
+        ("element: warm-up period and time period (inherited)", {"warmup-time-period": 60, "time-period": 600, "tasks": [dict(ta), dict(tb_)]}, False),
+        ("element: warm-up iterations; the second task writes a time period", {"warmup-iterations": 10, "tasks": [dict(ta), {**tb_, "time-period": 600}]}, True),
+        ("element: time period; the first task writes warm-up iterations", {"time-period": 600, "tasks": [{**ta, "warmup-iterations": 10}, dict(tb_)]}, True),
+        ("element: warm-up period; the second task writes iterations", {"warmup-time-period": 60, "tasks": [dict(ta), {**tb_, "iterations": 100}]}, True),
+        ("element: iterations; the first task writes a warm-up period", {"iterations": 100, "tasks": [{**ta, "warmup-time-period": 60}, dict(tb_)]}, True),
+    ], pt, key=f"{_L}:parse_parallel+parse_task:inherited-mixing")
     no_task = reject_sites([pp], ("completed-by", "no task with this name"))
     table("unknown completed-by task rejected", [
         ("completed-by names the first task", {"completed-by": "t-a", "tasks": [dict(ta), dict(tb_)]}, False),
@@ -3547,6 +3716,8 @@ _INLINE_OP = "            op = self.parse_operation(op_spec, error_ctx=\"inline 
 _CORPUS_DEDUPE = ("            if name in known_corpora_names:\n                self._error(\"Duplicate document corpus name [%s].\" % name)\n            known_corpora_names.add(name)\n")
 _CORPUS_CTOR = "            corpus = track.DocumentCorpus(name=name, meta_data=meta_data)\n"
 
+_DOC_BASE_URL_DEFAULT = "            default_base_url = self._r(corpus_spec, \"base-url\", mandatory=False, default_value=None)\n"
+_DOC_BASE_URL = "                base_url = self._r(doc_spec, \"base-url\", mandatory=False, default_value=default_base_url)\n"
 VARIANTS = [
     V("one registry arm dropped", "break", _T, "        elif v == \"bulk\":\n            return OperationType.Bulk\n", "", "O10.1"),
     V("duplicate literal", "break", _T, "        elif v == \"node-stats\":\n            return OperationType.NodeStats", "        elif v == \"index-stats\":\n            return OperationType.NodeStats", "O10.1"),
@@ -3996,4 +4167,45 @@ VARIANTS = [
     [V("duplicate corpus names looked for with any(...) over the corpus objects built so far, before the new one is built", "keep", _L, _CORPUS_DEDUPE,
        "            if any(c.name == name for c in document_corpora):\n                self._error(\"Duplicate document corpus name [%s].\" % name)\n"),
      V("", "keep", _L, "        known_corpora_names = set()\n", "")],
+    # m16: a document set is loaded from its own specification and the defaults of its corpus, whatever was written before it
+    [V("seed m16: the corpus-level base-url lives in the local that the document loop assigns (sticks to the following document sets)", "break", _L, _DOC_BASE_URL_DEFAULT,
+       "            base_url = self._r(corpus_spec, \"base-url\", mandatory=False, default_value=None)\n", "O10.2"),
+     V("", "break", _L, _DOC_BASE_URL, "                base_url = self._r(doc_spec, \"base-url\", mandatory=False, default_value=base_url)\n")],
+    V("a document set's target-type becomes the corpus-level default of the following document sets", "break", _L,
+      "                        target_type = self._r(doc_spec, \"target-type\", mandatory=False, default_value=corpus_target_type, error_ctx=docs)\n",
+      "                        target_type = self._r(doc_spec, \"target-type\", mandatory=False, default_value=corpus_target_type, error_ctx=docs)\n"
+      "                        corpus_target_type = target_type\n", "O10.2"),
+    V("a document set's includes-action-and-meta-data becomes the default of the following document sets", "break", _L,
+      "                        doc_spec, \"includes-action-and-meta-data\", mandatory=False, default_value=default_action_and_meta_data\n                    )\n",
+      "                        doc_spec, \"includes-action-and-meta-data\", mandatory=False, default_value=default_action_and_meta_data\n                    )\n"
+      "                    default_action_and_meta_data = includes_action_and_meta_data\n", "O10.2"),
+    [V("the corpus-level base-url of a corpus is the default of the corpora after it", "break", _L, "        known_corpora_names = set()\n",
+       "        known_corpora_names = set()\n        default_base_url = None\n", "O10.2"),
+     V("", "break", _L, _DOC_BASE_URL_DEFAULT, "            default_base_url = self._r(corpus_spec, \"base-url\", mandatory=False, default_value=default_base_url)\n")],
+    V("document-level base-url: the local starts from the corpus default in every iteration and is overwritten when the key is written", "keep", _L, _DOC_BASE_URL,
+      "                base_url = default_base_url\n                if \"base-url\" in doc_spec:\n                    base_url = doc_spec[\"base-url\"]\n"),
+    [V("corpus-level base-url default held in a local of another name", "keep", _L, _DOC_BASE_URL_DEFAULT,
+       "            corpus_base_url = self._r(corpus_spec, \"base-url\", mandatory=False, default_value=None)\n"),
+     V("", "keep", _L, _DOC_BASE_URL, "                base_url = self._r(doc_spec, \"base-url\", mandatory=False, default_value=corpus_base_url)\n")],
+    # m18: the warm-up rule is about the ramp-up / warm-up a task ends up with (written or inherited from the parallel element)
+    V("seed m18: the warm-up rule only looks at a ramp-up written on the task itself", "break", _L, "        if task.ramp_up_time_period is not None:\n",
+      "        if \"ramp-up-time-period\" in task_spec:\n", "O10.5"),
+    V("the warm-up rule is skipped when the ramp-up comes from the parallel element", "break", _L, "        if task.ramp_up_time_period is not None:\n",
+      "        if task.ramp_up_time_period is not None and default_ramp_up_time_period is None:\n", "O10.5"),
+    V("the warm-up compared with the ramp-up is the one written on the task itself", "break", _L, "            elif task.warmup_time_period < task.ramp_up_time_period:",
+      "            elif task_spec.get(\"warmup-time-period\", task.ramp_up_time_period) < task.ramp_up_time_period:", "O10.5"),
+    V("the warm-up rule reads the effective ramp-up again (own key, else the inherited default)", "keep", _L, "        if task.ramp_up_time_period is not None:\n",
+      "        ramp_up = self._r(task_spec, \"ramp-up-time-period\", error_ctx=op.name, mandatory=False, default_value=default_ramp_up_time_period)\n        if ramp_up is not None:\n"),
+    # m17: the dialect that decides "violates the schema"
+    [V("seed m17: validator compiled once in the constructor with a hard-wired draft-07 class", "break", _L, "            self.track_schema = json.loads(f.read())\n",
+       "            self.track_schema = json.loads(f.read())\n        self.track_schema_validator = jsonschema.Draft7Validator(self.track_schema)\n", "O10.4"),
+     V("", "break", _L, "            jsonschema.validate(track_spec, self.track_schema)", "            self.track_schema_validator.validate(track_spec)")],
+    V("jsonschema.validate told to use a draft-06 validator class", "break", _L, "            jsonschema.validate(track_spec, self.track_schema)",
+      "            jsonschema.validate(track_spec, self.track_schema, cls=jsonschema.Draft6Validator)", "O10.4"),
+    V("the schema file declares draft-07", "break", _S, "\"$schema\": \"http://json-schema.org/draft-04/schema#\"", "\"$schema\": \"http://json-schema.org/draft-07/schema#\"", "O10.4"),
+    [V("validator compiled once in the constructor with the draft-04 class (the dialect the file declares)", "keep", _L, "            self.track_schema = json.loads(f.read())\n",
+       "            self.track_schema = json.loads(f.read())\n        self.track_schema_validator = jsonschema.Draft4Validator(self.track_schema)\n"),
+     V("", "keep", _L, "            jsonschema.validate(track_spec, self.track_schema)", "            self.track_schema_validator.validate(track_spec)")],
+    V("validator class selected from the schema's own $schema, then applied", "keep", _L, "            jsonschema.validate(track_spec, self.track_schema)",
+      "            jsonschema.validators.validator_for(self.track_schema)(self.track_schema).validate(track_spec)"),
 ]
